@@ -11,8 +11,9 @@ type c06rec struct {
 	msgs []ZZMsg
 }
 
+// the callback keeps the slice it was handed (no copy): messages must not share storage with later ones
 func (c *c06rec) on(b []byte, ts int32) {
-	c.msgs = append(c.msgs, ZZMsg{Bytes: append([]byte{}, b...), TS: ts})
+	c.msgs = append(c.msgs, ZZMsg{Bytes: b, TS: ts})
 }
 
 func c06sameBytes(a, b []byte) bool {
